@@ -766,6 +766,11 @@ Again:
 		// if err == io.EOF {
 		// 	err = io.ErrUnexpectedEOF
 		// }
+		// EOF is accepted at a record boundary only: inside the record
+		// header it means that the record is truncated.
+		if err == io.EOF && len(b.data) > 0 {
+			err = io.ErrUnexpectedEOF
+		}
 		if e, ok := err.(net.Error); !ok || !e.Temporary() {
 			c.in.setErrorLocked(err)
 		}
